@@ -21,7 +21,8 @@ type failure struct {
 	li     int
 	path   []int // state indices visited: A,B[,C[,D]]
 	detail string
-	replay map[string]interface{}
+	diffs  [][]string // the diffs applied, in order (for the replay artefact)
+	how    string     // replay recipe override ("" = default)
 }
 
 func (f *failure) group() string {
@@ -123,7 +124,7 @@ func (f *findings) report(w *world) {
 			nonMinimal++
 			continue
 		}
-		w.r.Violate(it.fp, it.x.detail, it.x.replay)
+		w.r.Violate(it.fp, it.x.detail, replayOf(w, it.x.li, it.x.path, it.x.diffs, it.x.how))
 	}
 	w.r.Set("failing_cases_total", len(items))
 	w.r.Set("failing_cases_non_minimal_suppressed", nonMinimal)
@@ -133,17 +134,17 @@ func (f *findings) report(w *world) {
 // ---------------------------------------------------------------- counters
 
 type counters struct {
-	applies, evals           int64 // real ApplyDiff executions; content comparisons
-	fullDumps                int64
-	strict, light            int64 // valid single transitions: fresh copy + close + full dump / through a session
-	singleNontrivial         int64
-	pairs, pairsAllOrders    int64
-	pairsCapped              int64
-	faulty, faultyNontrivial int64
-	chain, walk              int64
-	maxDiffLines             int64
-	sessions, resets         int64
-	skew                     int64
+	Applies, Evals           int64 // real ApplyDiff executions; content comparisons
+	FullDumps                int64
+	Strict, Light            int64 // valid single transitions: fresh copy + close + full dump / through a session
+	SingleNontrivial         int64
+	Pairs, PairsAllOrders    int64
+	PairsCapped              int64
+	Faulty, FaultyNontrivial int64
+	Chain, Walk              int64
+	MaxDiffLines             int64
+	Sessions, Resets         int64
+	Skew                     int64
 }
 
 const dnsfixSerial = 1234567 // == dnsfix.Serial (checked in main)
@@ -172,23 +173,26 @@ func (w *world) strictStep(dir string, lines []string, viaFile bool) (applyResul
 	} else {
 		res = applyReader(dir, diffText(lines))
 	}
-	atomic.AddInt64(&cnt.applies, 1)
+	atomic.AddInt64(&cnt.Applies, 1)
 	raw, err := dumpRaw(dir)
 	if err != nil {
 		vlib.Infra("dump after ApplyDiff failed (store unreadable): %v", err)
 	}
-	atomic.AddInt64(&cnt.fullDumps, 1)
-	atomic.AddInt64(&cnt.evals, 1)
+	atomic.AddInt64(&cnt.FullDumps, 1)
+	atomic.AddInt64(&cnt.Evals, 1)
 	return res, raw
 }
 
-func replayOf(w *world, li int, path []int, diffs [][]string) map[string]interface{} {
+func replayOf(w *world, li int, path []int, diffs [][]string, how string) map[string]interface{} {
+	if how == "" {
+		how = "compile files[0].preprocessed with rdb.Compile (serial 1234567, UseV2KeySyntax per layout), then rdb.NewUpdater(dir).ApplyDiff(diff, 1234567) for each diff, then compare a raw key/value dump with rdb.Compile of the last file"
+	}
 	files := []map[string]interface{}{}
 	for _, s := range path {
 		files = append(files, map[string]interface{}{"name": w.states[s].name, "source": splitLines(srcText(w.states[s].src)), "preprocessed": w.states[s].pre})
 	}
 	return map[string]interface{}{"layout": layouts[li].String(), "files": files, "diffs_applied_in_order": diffs,
-		"how": "compile files[0].preprocessed with rdb.Compile (serial 1234567, UseV2KeySyntax per layout), then rdb.NewUpdater(dir).ApplyDiff(diff, 1234567) for each diff, then compare a raw key/value dump with rdb.Compile of the last file"}
+		"how": how}
 }
 
 // ---------------------------------------------------------------- outcome bookkeeping for one (A,B)
@@ -337,20 +341,20 @@ func (w *world) pairTransitions(f *findings, bfs *bfs) {
 	w.r.Set("faulty_deletable_line_universe", len(universe))
 
 	total := len(layouts) * n * n
-	vlib.ParallelFor(total, func(i int) {
+	w.run("pairs", total, f, bfs, nil, func(i int) {
 		li := i / (n * n)
 		a, b := (i/n)%n, i%n
 		A, B := w.states[a], w.states[b]
 		ca, cb := w.comp[li][a], w.comp[li][b]
 		diff := lineDiff(A.pre, B.pre)
 		perms, complete := orders(diff, maxOrders)
-		atomic.AddInt64(&cnt.pairs, 1)
+		atomic.AddInt64(&cnt.Pairs, 1)
 		if complete {
-			atomic.AddInt64(&cnt.pairsAllOrders, 1)
+			atomic.AddInt64(&cnt.PairsAllOrders, 1)
 		} else {
-			atomic.AddInt64(&cnt.pairsCapped, 1)
+			atomic.AddInt64(&cnt.PairsCapped, 1)
 		}
-		atomicMax(&cnt.maxDiffLines, int64(len(diff)))
+		atomicMax(&cnt.MaxDiffLines, int64(len(diff)))
 		nontrivial := int64(0)
 		if len(diff) > 0 {
 			nontrivial = 1
@@ -364,8 +368,8 @@ func (w *world) pairTransitions(f *findings, bfs *bfs) {
 			dir := copyStore(ca.dir, w.scratch)
 			res, raw := w.strictStep(dir, lines, true)
 			os.RemoveAll(dir)
-			atomic.AddInt64(&cnt.strict, 1)
-			atomic.AddInt64(&cnt.singleNontrivial, nontrivial)
+			atomic.AddInt64(&cnt.Strict, 1)
+			atomic.AddInt64(&cnt.SingleNontrivial, nontrivial)
 			if v.judge(res, raw, nil, cb, lines, "file-api") {
 				if id := raw.id(); id != cb.rawID {
 					bfs.offer(&rawState{li: li, id: id, canon: b, start: a, hist: [][]string{lines}, path: []int{a, b}})
@@ -377,15 +381,15 @@ func (w *world) pairTransitions(f *findings, bfs *bfs) {
 		faults := w.faultsFor(li, a, b, universe)
 		keys := keysOf(ca.ref, cb.ref)
 		s := openSession(w.scratch, ca.dir, ca.raw)
-		atomic.AddInt64(&cnt.sessions, 1)
+		atomic.AddInt64(&cnt.Sessions, 1)
 		for _, p := range perms[1:] {
 			lines := permute(diff, p)
 			res := s.apply(lines)
 			got, rerr := s.read(keys)
-			atomic.AddInt64(&cnt.applies, 1)
-			atomic.AddInt64(&cnt.evals, 1)
-			atomic.AddInt64(&cnt.light, 1)
-			atomic.AddInt64(&cnt.singleNontrivial, nontrivial)
+			atomic.AddInt64(&cnt.Applies, 1)
+			atomic.AddInt64(&cnt.Evals, 1)
+			atomic.AddInt64(&cnt.Light, 1)
+			atomic.AddInt64(&cnt.SingleNontrivial, nontrivial)
 			if v.judge(res, got, rerr, cb, lines, "session") {
 				if id := got.id(); id != cb.rawID {
 					bfs.offer(&rawState{li: li, id: id, canon: b, start: a, hist: [][]string{lines}, path: []int{a, b}})
@@ -395,7 +399,7 @@ func (w *world) pairTransitions(f *findings, bfs *bfs) {
 		}
 		if v.kind != "" {
 			det := fmt.Sprintf("%s: %s -> %s: %d of %d orders fail\n%s", layouts[li], A.name, B.name, len(v.bad), v.tried, strings.Join(head(v.bad, 4), "\n"))
-			f.add(&failure{kind: v.kind, li: li, path: []int{a, b}, detail: det, replay: replayOf(w, li, []int{a, b}, [][]string{v.firstBad})})
+			f.add(&failure{kind: v.kind, li: li, path: []int{a, b}, detail: det, diffs: ([][]string{v.firstBad})})
 		}
 
 		full := len(A.src) <= maxSrc && len(B.src) <= maxSrc
@@ -427,10 +431,10 @@ func (w *world) pairTransitions(f *findings, bfs *bfs) {
 				lines := insertAt(diff, pos, ft.line)
 				res := s.apply(lines)
 				got, rerr := s.read(fkeys)
-				atomic.AddInt64(&cnt.applies, 1)
-				atomic.AddInt64(&cnt.evals, 1)
-				atomic.AddInt64(&cnt.faulty, 1)
-				atomic.AddInt64(&cnt.faultyNontrivial, nontrivial)
+				atomic.AddInt64(&cnt.Applies, 1)
+				atomic.AddInt64(&cnt.Evals, 1)
+				atomic.AddInt64(&cnt.Faulty, 1)
+				atomic.AddInt64(&cnt.FaultyNontrivial, nontrivial)
 				kind := ""
 				switch {
 				case res.panicked != nil:
@@ -443,7 +447,7 @@ func (w *world) pairTransitions(f *findings, bfs *bfs) {
 				if kind != "" {
 					det := fmt.Sprintf("%s: store compiled from %s, diff towards %s with faulty line %q (%s) at position %d of %d: %q\nApplyDiff: %s\nstore before vs after: %s %v",
 						layouts[li], A.name, B.name, ft.line, ft.class, pos, len(diff), lines, res, orSame(diffExact(got, ca.ref)), rerr)
-					f.add(&failure{kind: kind, sub: ft.class, li: li, path: []int{a, b}, detail: det, replay: replayOf(w, li, []int{a, b}, [][]string{lines})})
+					f.add(&failure{kind: kind, sub: ft.class, li: li, path: []int{a, b}, detail: det, diffs: ([][]string{lines})})
 				}
 				if kind != "" || got.id() != ca.rawID {
 					s.restore(fkeys, got, rerr == nil && res.panicked == nil)
@@ -453,13 +457,13 @@ func (w *world) pairTransitions(f *findings, bfs *bfs) {
 
 		// (3) close the session: the whole store, read with a raw iterator, must be exactly compile(A) again
 		final := s.close()
-		atomic.AddInt64(&cnt.fullDumps, 1)
-		atomic.AddInt64(&cnt.evals, 1)
-		atomic.AddInt64(&cnt.resets, int64(s.resets))
+		atomic.AddInt64(&cnt.FullDumps, 1)
+		atomic.AddInt64(&cnt.Evals, 1)
+		atomic.AddInt64(&cnt.Resets, int64(s.resets))
 		if final.id() != ca.rawID {
 			det := fmt.Sprintf("%s: session on compile(%s) with diffs towards %s: every case was undone on the keys of both files, yet the closed store differs from compile(%s): %s",
 				layouts[li], A.name, B.name, A.name, orSame(diffExact(final, ca.ref)))
-			f.add(&failure{kind: "residue", li: li, path: []int{a, b}, detail: det, replay: replayOf(w, li, []int{a, b}, [][]string{diff})})
+			f.add(&failure{kind: "residue", li: li, path: []int{a, b}, detail: det, diffs: ([][]string{diff})})
 		}
 	})
 }
@@ -557,7 +561,6 @@ func (b *bfs) takeLevel(depth int) []*rawState {
 // other data file in every order.
 func (b *bfs) run(f *findings, maxDepth int) {
 	w := b.w
-	n := len(w.states)
 	frontier := b.takeLevel(1)
 	for depth := 2; depth <= maxDepth && len(frontier) > 0; depth++ {
 		dirs := make([]string, len(frontier))
@@ -568,7 +571,7 @@ func (b *bfs) run(f *findings, maxDepth int) {
 			for _, d := range s.hist {
 				var res applyResult
 				res, raw = w.strictStep(dir, d, false)
-				atomic.AddInt64(&cnt.chain, 1)
+				atomic.AddInt64(&cnt.Chain, 1)
 				if res.err != nil || res.panicked != nil {
 					vlib.Infra("nondeterminism: replay of %v %q failed: %s", s.path, s.hist, res)
 				}
@@ -579,7 +582,29 @@ func (b *bfs) run(f *findings, maxDepth int) {
 			s.raw = raw
 			dirs[i] = dir
 		})
-		vlib.ParallelFor(len(frontier)*n, func(i int) {
+		b.expand(f, frontier, dirs)
+		for _, d := range dirs {
+			os.RemoveAll(d)
+		}
+		frontier = b.takeLevel(depth)
+	}
+	// contents first seen at the last depth were compared with the fresh compile when they
+	// were produced, but are not expanded
+	b.w.r.Set("bfs_unexpanded_contents_at_depth_bound", len(frontier))
+}
+
+// expand takes every frontier state (rebuilt in dirs) through the diff to every
+// other file of the universe in every order.
+func (b *bfs) expand(f *findings, frontier []*rawState, dirs []string) {
+	w := b.w
+	n := len(w.states)
+	{
+		w.run("bfs", len(frontier)*n, f, b, func(j *job) {
+			for _, s := range frontier {
+				j.Frontier = append(j.Frontier, toGob(s))
+			}
+			j.Dirs = dirs
+		}, func(i int) {
 			s, c := frontier[i/n], i%n
 			if c == s.canon || !b.inUniverse(c) {
 				return
@@ -591,15 +616,15 @@ func (b *bfs) run(f *findings, maxDepth int) {
 			path := append(append([]int{}, s.path...), c)
 			keys := keysOf(s.raw, cc.ref)
 			ss := openSession(w.scratch, dirs[i/n], s.raw)
-			atomic.AddInt64(&cnt.sessions, 1)
+			atomic.AddInt64(&cnt.Sessions, 1)
 			var v verdicts
 			for _, p := range perms {
 				lines := permute(diff, p)
 				res := ss.apply(lines)
 				got, rerr := ss.read(keys)
-				atomic.AddInt64(&cnt.applies, 1)
-				atomic.AddInt64(&cnt.evals, 1)
-				atomic.AddInt64(&cnt.chain, 1)
+				atomic.AddInt64(&cnt.Applies, 1)
+				atomic.AddInt64(&cnt.Evals, 1)
+				atomic.AddInt64(&cnt.Chain, 1)
 				if v.judge(res, got, rerr, cc, lines, "session") {
 					if id := got.id(); id != cc.rawID {
 						b.offer(&rawState{li: s.li, id: id, canon: c, start: s.start, hist: append(append([][]string{}, s.hist...), lines), path: path})
@@ -608,25 +633,18 @@ func (b *bfs) run(f *findings, maxDepth int) {
 				ss.restore(keys, got, rerr == nil && res.panicked == nil)
 			}
 			final := ss.close()
-			atomic.AddInt64(&cnt.fullDumps, 1)
-			atomic.AddInt64(&cnt.evals, 1)
-			atomic.AddInt64(&cnt.resets, int64(ss.resets))
+			atomic.AddInt64(&cnt.FullDumps, 1)
+			atomic.AddInt64(&cnt.Evals, 1)
+			atomic.AddInt64(&cnt.Resets, int64(ss.resets))
 			if v.kind == "" && final.id() != s.id {
 				v.note("mismatch", diff, "closed store differs from the rebuilt state after undoing every case: "+orSame(diffExact(final, s.raw.canon())))
 			}
 			if v.kind != "" {
 				det := fmt.Sprintf("%s: store reached by %s (diffs %q), then towards %s: %d of %d orders fail\n%s", layouts[s.li], w.pathNames(s.path), s.hist, C.name, len(v.bad), v.tried, strings.Join(head(v.bad, 4), "\n"))
-				f.add(&failure{kind: "chain-" + v.kind, li: s.li, path: path, detail: det, replay: replayOf(w, s.li, path, append(append([][]string{}, s.hist...), v.firstBad))})
+				f.add(&failure{kind: "chain-" + v.kind, li: s.li, path: path, detail: det, diffs: (append(append([][]string{}, s.hist...), v.firstBad))})
 			}
 		})
-		for _, d := range dirs {
-			os.RemoveAll(d)
-		}
-		frontier = b.takeLevel(depth)
 	}
-	// contents first seen at the last depth were compared with the fresh compile when they
-	// were produced, but are not expanded
-	b.w.r.Set("bfs_unexpanded_contents_at_depth_bound", len(frontier))
 }
 
 func (w *world) pathNames(p []int) string {
@@ -656,7 +674,7 @@ func (w *world) walks(f *findings) {
 	w.r.Set("walk_depth", depth)
 	m := len(small)
 	// one work item per (layout, first file, second file); deeper steps are iterated inside
-	vlib.ParallelFor(len(layouts)*m*m, func(i int) {
+	w.run("walks", len(layouts)*m*m, f, nil, nil, func(i int) {
 		li := i / (m * m)
 		a, b := small[(i/m)%m], small[i%m]
 		if a == b {
@@ -699,7 +717,7 @@ func (w *world) walks(f *findings) {
 
 func (w *world) walkStep(f *findings, li int, dir string, path []int, diffs [][]string) bool {
 	res, raw := w.strictStep(dir, diffs[len(diffs)-1], false)
-	atomic.AddInt64(&cnt.walk, 1)
+	atomic.AddInt64(&cnt.Walk, 1)
 	target := w.comp[li][path[len(path)-1]]
 	kind, what := "", ""
 	switch {
@@ -717,7 +735,7 @@ func (w *world) walkStep(f *findings, li int, dir string, path []int, diffs [][]
 		return false // a failing first step is a single transition, reported by pairTransitions
 	}
 	det := fmt.Sprintf("%s: one store taken through %s with diffs %q: %s", layouts[li], w.pathNames(path), diffs, what)
-	f.add(&failure{kind: kind, li: li, path: path, detail: det, replay: replayOf(w, li, path, diffs)})
+	f.add(&failure{kind: kind, li: li, path: path, detail: det, diffs: (diffs)})
 	return false
 }
 
@@ -741,20 +759,20 @@ func (w *world) serialSkew(f *findings) {
 		}
 	}
 	w.r.Set("serial_skew_pure_deletion_pairs", len(items))
-	vlib.ParallelFor(len(layouts)*len(items), func(i int) {
+	w.run("skew", len(layouts)*len(items), f, nil, nil, func(i int) {
 		li, a, b := i/len(items), items[i%len(items)][0], items[i%len(items)][1]
 		diff := lineDiff(w.states[a].pre, w.states[b].pre)
 		dir := copyStore(w.comp[li][a].dir, w.scratch)
 		res := applyFileSerial(dir, diffText(diff), dnsfixSerialSkewed)
-		atomic.AddInt64(&cnt.applies, 1)
-		atomic.AddInt64(&cnt.skew, 1)
+		atomic.AddInt64(&cnt.Applies, 1)
+		atomic.AddInt64(&cnt.Skew, 1)
 		raw, err := dumpRaw(dir)
 		os.RemoveAll(dir)
 		if err != nil {
 			vlib.Infra("dump after ApplyDiff failed: %v", err)
 		}
-		atomic.AddInt64(&cnt.fullDumps, 1)
-		atomic.AddInt64(&cnt.evals, 1)
+		atomic.AddInt64(&cnt.FullDumps, 1)
+		atomic.AddInt64(&cnt.Evals, 1)
 		what := ""
 		switch {
 		case res.panicked != nil || res.err != nil:
@@ -767,9 +785,8 @@ func (w *world) serialSkew(f *findings) {
 		if what != "" {
 			det := fmt.Sprintf("%s: store compiled from %s with serial %d; deletion diff %q towards %s applied with rdb.ApplyDiff(file) whose mtime gives serial %d: %s",
 				layouts[li], w.states[a].name, dnsfixSerial, diff, w.states[b].name, dnsfixSerialSkewed, what)
-			rp := replayOf(w, li, []int{a, b}, [][]string{diff})
-			rp["how"] = "compile files[0].preprocessed with rdb.Compile serial 1234567; write the diff to a file, os.Chtimes it to unix time 1234568, rdb.ApplyDiff(diffpath, dir)"
-			f.add(&failure{kind: "serial-skew", li: li, path: []int{a, b}, detail: det, replay: rp})
+			f.add(&failure{kind: "serial-skew", li: li, path: []int{a, b}, detail: det, diffs: [][]string{diff},
+				how: "compile files[0].preprocessed with rdb.Compile serial 1234567; write the diff to a file, os.Chtimes it to unix time 1234568, rdb.ApplyDiff(diffpath, dir)"})
 		}
 	})
 }
